@@ -879,20 +879,17 @@ class SymbolTable():
                 f"unresolvable name clashes.") from err
 
         # A symbol that is to be merged cannot be imported from a Container
-        # that is to be skipped unless that Container is already known here.
+        # that is to be skipped (its import interface could not be updated
+        # to refer to a Container in this table).
         for sym in other_table.symbols:
             if sym in symbols_to_skip or not sym.is_import:
                 continue
             csym = sym.interface.container_symbol
             if csym in symbols_to_skip:
-                try:
-                    self.lookup(csym.name)
-                except KeyError as err:
-                    raise SymbolError(
-                        f"Cannot merge symbol '{sym.name}' because the "
-                        f"Container '{csym.name}' from which it is imported "
-                        f"is in 'symbols_to_skip' and is not in scope in the "
-                        f"receiving table.") from err
+                raise SymbolError(
+                    f"Cannot merge symbol '{sym.name}' because the "
+                    f"Container '{csym.name}' from which it is imported "
+                    f"is in 'symbols_to_skip'.")
 
         # Deal with any Container symbols first.
         self._add_container_symbols_from_table(
